@@ -215,3 +215,122 @@ Fixpoint T_from (s : state) (ops : list op) : bool :=
   end.
 
 Definition T (ops : list op) : bool := T_from init ops.
+
+(* ---- observers overlapping operations of another goroutine ----
+   "The queue holds exactly the tasks an ordinary list would hold, in the same order": what an
+   observer is SHOWN must be a list the queue really held at some moment between the observer's
+   start and its end.  For an Iterate that overlaps the operations c1..ck of another goroutine
+   (ordinary list before: l0, after: lk, both observed), the reported walk [w] must be one of
+   the k+1 lists l0, l1, .., lk where every l(i) follows from l(i-1) by the ordinary-list rule
+   of c(i) (spec_ok) - never a mixture.  The intermediate lists are not observed; they are
+   searched for in the finite set of lists that differ from the previous one by one insertion
+   of the operation's task, one deletion, or the operation's filter ([universe]; spec_ok judges). *)
+
+Fixpoint all_ins (t : task) (l : list task) : list (list task) :=
+  match l with
+  | [] => [[t]]
+  | x :: r => (t :: l) :: map (cons x) (all_ins t r)
+  end.
+
+Fixpoint all_dels (l : list task) : list (list task) :=
+  match l with
+  | [] => []
+  | x :: r => r :: map (cons x) (all_dels r)
+  end.
+
+Definition universe (l : list task) (o : op) : list (list task) :=
+  match o with
+  | AddFirst t | AddLast t | AddAfter _ t | AddBefore _ t => all_ins t l
+  | Remove _ | RemoveFirst | RemoveLast => l :: all_dels l
+  | Filter keep => [filter (fun x => mem_N (tid x) keep) l]
+  | _ => [l]
+  end.
+
+(* operations whose effect does not depend on the worker (they neither start it nor let a
+   handler return) *)
+Definition chain_mid_ok (o : op) : bool :=
+  match o with
+  | AddFirst _ | AddLast _ | AddAfter _ _ | AddBefore _ _
+  | Remove _ | RemoveFirst | RemoveLast | Filter _ => true
+  | _ => false
+  end.
+
+Definition is_return (o : op) : bool := match o with Return _ _ _ _ => true | _ => false end.
+Definition is_some_task (o : option task) : bool := match o with Some _ => true | None => false end.
+
+(* the overlapping operations this clause speaks about: any number of worker-independent
+   operations, optionally ended by the return of the handler that is in progress (a single
+   Return is always allowed) *)
+Definition chain_wf (running : option task) (cs : list op) : bool :=
+  forallb chain_mid_ok (removelast cs) &&
+  match rev cs with
+  | [] => true
+  | o :: r => chain_mid_ok o ||
+              (is_return o && (match r with [] => true | _ => false end || is_some_task running))
+  end.
+
+Fixpoint chain_ok (running : option task) (w : list task) (seen : bool) (l : list task)
+         (cs : list op) (rs : list (option task)) (l' : list task) : bool :=
+  match cs, rs with
+  | [], [] => tasks_eqb l l' && (seen || tasks_eqb w l)
+  | o :: cs', r :: rs' =>
+      let seen1 := seen || tasks_eqb w l in
+      match cs' with
+      | [] => spec_ok l running o l' r && (seen1 || tasks_eqb w l')
+              && match rs' with [] => true | _ => false end
+      | _ => existsb (fun m => spec_ok l running o m r && chain_ok running w seen1 m cs' rs' l')
+                     (universe l o)
+      end
+  | _, _ => false
+  end.
+
+Definition xspec_ok (l : list task) (running : option task) (x : xop) (ob : xobs) (l' : list task) : bool :=
+  match x with
+  | Plain o =>
+      spec_ok l running o l' (o_ret (x_obs ob))
+      && match x_walk ob, x_rets ob with [], [] => true | _, _ => false end
+  | IterateDuring _ cs =>
+      match all_some (x_walk ob) with
+      | None => false                                   (* the walk showed an empty slot *)
+      | Some w =>
+          chain_wf running cs
+          && chain_ok running w false l cs (x_rets ob) l'
+          && otask_eqb (o_ret (x_obs ob)) None
+      end
+  end.
+
+(* XP: P, with the observers.  Length() / GetFirst() / GetLast() / Get() after the walk are
+   judged by obs_wellformed against the list after the last operation. *)
+Fixpoint XP_from (l : list task) (running : option task) (xs : list xop) (os : list xobs) : bool :=
+  match xs, os with
+  | [], [] => true
+  | x :: xs', ob :: os' =>
+      match obs_wellformed (x_obs ob) with
+      | None => false
+      | Some l' => xspec_ok l running x ob l' && XP_from l' (o_running (x_obs ob)) xs' os'
+      end
+  | _, _ => false
+  end.
+
+Definition XP (xs : list xop) (os : list xobs) : bool := XP_from [] None xs os.
+
+(* trigger of F14 and the domain of the observer clause, along the model's states *)
+Definition xstate_after (s : state) (x : xop) : state := fst (xstep s x).
+
+Fixpoint XT_from (s : state) (xs : list xop) : bool :=
+  match xs with
+  | [] => false
+  | x :: r =>
+      match x with Plain o => trigger_step s o | IterateDuring _ cs => T_from s cs end
+      || XT_from (xstate_after s x) r
+  end.
+Definition XT (xs : list xop) : bool := XT_from init xs.
+
+Fixpoint XWF_from (s : state) (xs : list xop) : bool :=
+  match xs with
+  | [] => true
+  | x :: r =>
+      match x with Plain _ => true | IterateDuring _ cs => chain_wf (running s) cs end
+      && XWF_from (xstate_after s x) r
+  end.
+Definition XWF (xs : list xop) : bool := XWF_from init xs.
